@@ -282,3 +282,26 @@ Proof. intros. unfold x_copy_bytes_uspace. rewrite x_copy_bytes_uspace_loop_ok. 
    share the two descriptors, so nothing may go through their cursors *)
 Theorem x_positional_io_ok : x_read_bytes_steps = [50] /\ x_write_bytes_steps = [51].
 Proof. split; reflexivity. Qed.
+
+(* CopyHandle::copy_sparse (the parfile sparse walk): next_sparse_segments and copy_bytes are the modelled helpers *)
+Lemma x_copy_sparse_loop_ok : forall fuel sd sh flen bs pos tr ans,
+  x_copy_sparse_loop fuel sd sh flen bs flen pos tr ans = out_app tr (copy_sparse fuel bs flen pos sd sh ans).
+Proof.
+  induction fuel as [|f IH]; intros sd sh flen bs pos tr ans.
+  - cbn [x_copy_sparse_loop copy_sparse]. destruct (N.ltb_spec pos flen), (N.leb_spec flen pos); try lia;
+      unfold out_app; cbn [o_st o_trace o_rest]; now rewrite app_nil_r.
+  - cbn [x_copy_sparse_loop copy_sparse]. destruct (N.ltb_spec pos flen), (N.leb_spec flen pos); try lia;
+      [|unfold out_app; cbn [o_st o_trace o_rest]; now rewrite app_nil_r].
+    destruct (next_segment sd sh flen pos) as [[d h]|e]; [|unfold out_app; cbn [o_st o_trace o_rest]; now rewrite app_nil_r].
+    change (CopyLoop.out_app) with CopyLoop.out_app.
+    destruct (copy_bytes (S (List.length ans)) bs (h - d) 0 d ans) as [st t r] eqn:Ec. cbn [o_st o_trace o_rest].
+    destruct st; try (unfold out_app; cbn [o_st o_trace o_rest]; reflexivity).
+    rewrite IH. unfold out_app, CopyLoop.out_app. cbn [o_st o_trace o_rest]. now rewrite app_assoc.
+Qed.
+
+Theorem x_copy_sparse_ok : forall fuel sd sh flen bs ans,
+  x_copy_sparse fuel sd sh flen bs ans = copy_sparse fuel bs flen 0 sd sh ans.
+Proof.
+  intros. unfold x_copy_sparse. rewrite x_copy_sparse_loop_ok. unfold out_app. cbn [app].
+  destruct (copy_sparse fuel bs flen 0 sd sh ans); reflexivity.
+Qed.
